@@ -428,3 +428,14 @@ _c12_base3 = contracts
 
 def contracts():
     return _c12_base3() + [instantiate_param_contract(True), instantiate_param_contract(False)]
+
+
+# class-level assignment on a subclass: copy-on-write of the inherited Parameter (verified for C13 / C02)
+_c12_base4 = contracts
+
+
+def contracts():
+    from contracts import c13 as _c13
+    c = _c13.metaclass_setattr_contract()
+    c.prop = "C12"
+    return _c12_base4() + [c]
